@@ -152,6 +152,21 @@ def generate(rng):
     scn['peer'] = peer
     if rng.random() < 0.3 and entry not in ('rnb', 'waitnoecho'):
         scn['pending'] = rng.choice(['zz', 'MAT', 'zzzzzzzzzz'])
+    if rng.random() < 0.2:
+        # a slow or descheduled caller: some system calls take 0.05 .. 5 ms, so that "time left" computed before a
+        # liveness check or a read may be used up when the next wait starts
+        scn['costs'] = [rng.choice([1, 3, 8, 50, 200, 1000, 5000]) for _ in range(rng.randint(1, 7))]
+    if tr != 'popen' and rng.random() < 0.25:
+        # signals handled by the parent while it waits: the n-th select/poll that has to wait is interrupted (EINTR reaches
+        # pexpect.utils, which must resume with the time that is left, neither the whole timeout again nor none)
+        hz = int(horizon * 1e6)
+        if rng.random() < 0.5:
+            # a run of interruptions each arriving late in the wait
+            fr = rng.choice([0.5, 0.9, 0.97])
+            scn['eintr'] = [[n, max(1, int(hz * fr))] for n in range(1, rng.randint(2, 6))]
+        else:
+            scn['eintr'] = sorted([rng.randint(1, 6), max(1, int(hz * rng.choice([0.001, 0.1, 0.5, 0.9, 0.999])))]
+                                  for _ in range(rng.randint(1, 3)))
     scn['vt_cap_s'] = 400000
     scn['step_cap'] = 250000
     return scn
@@ -164,17 +179,23 @@ def enumerate_scenarios(tier, seed):
     span = 40 if tier == 'quick' else 120
     for tr in ('pty', 'fd', 'sock', 'popen'):
         for entry in ('expect', 'expect_exact', 'rnb'):
-            for cost in ([3], [1, 20, 5]):
-                for off in range(-span, span + 1):
-                    T = 0.01
-                    scn = {'family': 'deadline', 'transport': tr, 'entry': entry, 'costs': cost, 'T': T, 'timeout': 1.0,
-                           'maxread': 2000, 'size': 100, 'peer_kind': 'burst',
-                           'peer': [{'op': 'w', 'd': TOKEN, 'dt': int(T * 1e6) + off}, {'op': 'pause'}],
-                           'vt_cap_s': 1000, 'step_cap': 100000, 'enum': ['tie', off]}
-                    if tr == 'popen':
-                        scn['delayafterread'] = 0.0005
-                        scn['sched'] = [0, 1, 1]
-                    out.append(scn)
+            for cost in ([3], [1, 20, 5], [200]):
+                # [200]: a slow machine (every system call takes 0.2 ms), swept in coarser steps over a wider range
+                for off in (range(-span, span + 1) if cost != [200] else range(-25 * span, 25 * span + 1, 25)):
+                    # the awaited text, or text that does not match (the call goes round its read loop once more with
+                    # only microseconds left: remaining-time arithmetic around liveness checks and waits)
+                    for d in (TOKEN, 'zz'):
+                        T = 0.01
+                        scn = {'family': 'deadline', 'transport': tr, 'entry': entry, 'costs': cost, 'T': T, 'timeout': 1.0,
+                               'maxread': 2000, 'size': 100, 'peer_kind': 'burst',
+                               'peer': [{'op': 'w', 'd': d, 'dt': int(T * 1e6) + off}, {'op': 'pause'}],
+                               'vt_cap_s': 1000, 'step_cap': 100000, 'enum': ['tie', off, d]}
+                        if tr in ('pty', 'fd') and off % 2:
+                            scn['use_poll'] = True
+                        if tr == 'popen':
+                            scn['delayafterread'] = 0.0005
+                            scn['sched'] = [0, 1, 1]
+                        out.append(scn)
     return out
 
 
@@ -294,7 +315,10 @@ def evaluate(r, scn, ops, recs):
     rec = recs[-1]
     T = scn['T']
     Teff = scn['timeout'] if T == -1 else T
-    dur = rec['t1'] - rec['t0']
+    # the time the system calls themselves took (a slow or descheduled machine) is not pexpect's overhead: the bound is on
+    # what pexpect adds, so it is taken out of the stopwatch reading; time spent WAITING inside a call stays in
+    dur = rec['t1'] - rec['t0'] - rec.get('cost', 0)
+    slow = max(scn.get('costs') or [1]) > 20
     kind = scn['peer_kind']
     entry = scn['entry']
     oc = rec['out']
@@ -324,7 +348,7 @@ def evaluate(r, scn, ops, recs):
             V('C05.overrun', 'call with timeout %r took %.3f virtual s' % (Teff, dur / 1e6))
             return out
         connected = kind in ('silent', 'trickle', 'burst', 'late_match', 'ready', 'ready_nomatch', 'echo_off', 'trickle_then_match', 'partial_char')
-        if is_timeout and Teff > 0 and connected and dur < Teff * 1e6 - EARLY_SLACK_US:
+        if is_timeout and Teff > 0 and connected and rec['t1'] - rec['t0'] < Teff * 1e6 - EARLY_SLACK_US:
             V('C05.early', 'TIMEOUT after %.6f virtual s with timeout %r while the peer is connected' % (dur / 1e6, Teff))
             return out
     else:
@@ -351,7 +375,7 @@ def evaluate(r, scn, ops, recs):
             if TOKEN.encode() in (pend + first) and oc != 'ret':
                 V('C05.zero', 'timeout=0 did not examine immediately readable data %r (outcome %s)' % (first[:20], oc))
                 return out
-            if TOKEN.encode() not in (pend + ready) and oc == 'ret':
+            if TOKEN.encode() not in (pend + ready) and oc == 'ret' and not slow:
                 V('C05.zero', 'timeout=0 matched although the token was neither pending nor readable')
                 return out
         elif ready:
